@@ -732,12 +732,15 @@ def check_cache_tables(ctx: Ctx) -> None:
     we = [c for c in walk_body(w) if isinstance(c, ast.Call) and last_attr(c) == "require_group"]
     names_w = [norm_stmt(c.args[0]) for c in we]
     re_ = [norm_stmt(n.slice) for n in walk_body(rd) if isinstance(n, ast.Subscript) and norm_stmt(n.slice) in ("str(index)", "group", "hdf_node_path")]
+    # <group>.get(<name>) reads the same member as <group>[<name>] (None instead of KeyError when absent)
+    re_ += [norm_stmt(c.args[0]) for c in walk_body(rd) if isinstance(c, ast.Call) and last_attr(c) == "get" and len(c.args) == 1 and not c.keywords and norm_stmt(c.args[0]) in ("str(index)", "group", "hdf_node_path")]
     ok = names_w == ["hdf_node_path", "str(index)", "group"] and set(re_) == {"hdf_node_path", "str(index)", "group"}
     ctx.ob("11.1-cache-layout", cname(HS, "HDF5FileSingleton", "read_data"), ok, f"entries are written at <node>/<index>/<group> ({names_w}) and must be read from the same path ({sorted(set(re_))})", node=rd, stmt="node/index/group layout")
     # strings: bytes on disk, str in memory
     def dtype_is(e: ast.AST | None, kind: str) -> bool:
         """``e`` names the NumPy bytes / str dtype: the string "bytes", the scalar type ``bytes_`` or the builtin."""
-        return e is not None and (const_value(e) == kind or (dotted(e) or "").split(".")[-1] in (kind, kind + "_"))
+        codes = {"bytes": ("bytes", "bytes_", "S", "|S", "a"), "str": ("str", "str_", "U", "<U", ">U", "unicode")}[kind]
+        return e is not None and (const_value(e) in codes or (dotted(e) or "").split(".")[-1] in (kind, kind + "_"))
 
     enc = [c for c in walk_body(w) if isinstance(c, ast.Call) and last_attr(c) == "astype" and dtype_is(arg_or_kw(c, 0, "dtype"), "bytes")]
     dec = [c for c in walk_body(rd) if isinstance(c, ast.Call) and last_attr(c) == "astype" and dtype_is(arg_or_kw(c, 0, "dtype"), "str")]
@@ -924,6 +927,61 @@ class _Windows:
         return env
 
 
+def _check_csv_start(ctx: Ctx, con: str, f: ast.AST, lp: ast.For, tables: set, carried: list) -> None:
+    """The row cursor starts at the row where the names start (``names = table[X:, 0]``): with a header line in the
+    file that is row 1, and a cursor starting at 0 reads every variable one row too early."""
+    from gv.props.shared import unfolded
+
+    name_rows = [n for n in walk_body(f) if isinstance(n, ast.Subscript) and isinstance(n.ctx, ast.Load) and isinstance(n.value, ast.Name) and n.value.id in tables and isinstance(n.slice, ast.Tuple) and len(n.slice.elts) == 2 and isinstance(n.slice.elts[0], ast.Slice) and n.slice.elts[0].upper is None and n.slice.elts[0].step is None and const_value(n.slice.elts[1]) == 0 and not any(n is x for x in ast.walk(lp))]
+    if len(name_rows) != 1:
+        return  # the names are not read that way: nothing to compare with (the window rule still applies)
+    start = name_rows[0].slice.elts[0].lower
+    cfg = cfg_of(f)
+    ln = cfg.node_of(lp)
+
+    def fold(e, env):
+        if isinstance(e, ast.Constant) and isinstance(e.value, (int, bool)):
+            return int(e.value)
+        if isinstance(e, ast.Name) and e.id in env:
+            return env[e.id]
+        if isinstance(e, ast.IfExp):
+            t = fold(e.test, env)
+            return None if t is None else fold(e.body if t else e.orelse, env)
+        if isinstance(e, ast.UnaryOp) and isinstance(e.op, ast.Not):
+            t = fold(e.operand, env)
+            return None if t is None else int(not t)
+        if isinstance(e, ast.Compare) and len(e.ops) == 1:
+            a, b = fold(e.left, env), fold(e.comparators[0], env)
+            if a is None or b is None:
+                return None
+            return {ast.Eq: a == b, ast.NotEq: a != b, ast.Lt: a < b, ast.LtE: a <= b, ast.Gt: a > b, ast.GtE: a >= b}.get(type(e.ops[0]), None)
+        if isinstance(e, ast.BinOp) and isinstance(e.op, (ast.Add, ast.Sub)):
+            a, b = fold(e.left, env), fold(e.right, env)
+            if a is None or b is None:
+                return None
+            return a + b if isinstance(e.op, ast.Add) else a - b
+        return None
+
+    for k_ in carried:
+        inits = [s_ for s_ in stmts_of(f) if isinstance(s_, ast.Assign) and len(s_.targets) == 1 and isinstance(s_.targets[0], ast.Name) and s_.targets[0].id == k_ and not any(s_ is x for x in ast.walk(lp)) and cfg.dominates(cfg.node_of(s_), ln)]
+        if not inits:
+            continue
+        init = inits[-1]
+        if start is None:
+            ok = fold(init.value, {}) == 0 or all(fold(a_, {}) == 0 for a_ in (unfolded(f, init.value) or [init.value]))
+            what = "0"
+        else:
+            what = norm_stmt(start, 60)
+            a_start = unfolded(f, start) or [start]
+            a_init = unfolded(f, init.value) or [init.value]
+            ok = {norm_stmt(x, 200) for x in a_start} == {norm_stmt(x, 200) for x in a_init}
+            if not ok and isinstance(start, ast.Name):
+                # the offset takes a few constant values: the initial cursor, as a function of it, is the offset
+                consts = [fold(x, {}) for x in a_start]
+                ok = all(c is not None for c in consts) and all(fold(init.value, {start.id: c}) == c for c in consts)
+        ctx.ob("11.1-ds-csv", con, bool(ok), f"the row cursor `{k_}` must start at the row where the names start (`{what}`): otherwise every variable is read from the rows of its neighbour (the header line shifts the table by one)", node=init, stmt=f"cursor {k_} starts at the first row of the names")
+
+
 def check_csv_rows(ctx: Ctx) -> None:
     """11.1-ds-csv: the text reader of a design space reads every field of a variable from the variable's own rows:
     bounds, value and the missing-value marker alike.  Decided by following the integer locals of the loop that adds
@@ -945,6 +1003,7 @@ def check_csv_rows(ctx: Ctx) -> None:
     carried = sorted(n_ for n_ in _Windows.stored(ast.Module(body=lp.body, type_ignores=[])) if isinstance(pre.at_stop.get(n_), dict))
     group = {n_: _Windows.render(pre.at_stop[n_]) for n_ in carried}  # local -> class of locals equal when an iteration starts
     item = names_in(lp.target)
+    _check_csv_start(ctx, con, f, lp, tables, carried)
     for _ in range(len(carried) + 2):
         reads: list[tuple[ast.Subscript, object, object]] = []
 
@@ -1103,6 +1162,7 @@ def run(ctx: Ctx) -> None:
 # ---------------------------------------------------------------------------
 _DBF = "algos/database.py"
 WITNESSES = [
+    {"name": "csv-cursor-starts-at-zero", "file": "algos/design_space.py", "old": "        k = start_read\n", "new": "        k = 0\n", "expect": "11.1"},
     {"name": "design-space-values-all-or-nothing", "file": DS, "old": "                value = self.__current_value.get(name)\n                if value is not None:\n                    var_grp.create_dataset(self.VALUE_GROUP, data=self.__to_real(value))", "new": "                if self.__has_current_value:\n                    value = self.__current_value[name]\n                    var_grp.create_dataset(self.VALUE_GROUP, data=self.__to_real(value))", "expect": "11.1"},
     {"name": "reader-other-group", "file": HD, "old": "            keys_group = h5file[\"k\"]", "new": "            keys_group = h5file[\"keys\"]", "expect": "11.1"},
     {"name": "writer-subgroup-renamed", "file": HD, "old": "        sub_group_name = f\"arr_{index_dataset}\"", "new": "        sub_group_name = f\"vec_{index_dataset}\"", "expect": "11.1"},
